@@ -199,6 +199,7 @@ impl BDF {
         } else {
             let mut f1 = vec![0.0; n];
             let mut y1 = vec![0.0; n];
+            evals.ode += 1;
             let guess = hinit(
                 f, x, &y, direction, &f0, &mut f1, &mut y1, 1, hmax.min((xend - x).abs()), &atol, &rtol,
             );
